@@ -21,18 +21,27 @@ BINARY = ["add", "subtract", "multiply", "poly_divmod", "truediv_op", "mod_op", 
           "copyto_src"]
 
 
+DTYPES = ["int64", "float64", "bool", "uint32", "float32"]
+
+
 def gen(tier, rng):
-    for _ in range(count(tier, 300, 3000)):
-        binary = rng.random() < 0.5
-        shape = rng.choice([(2,), (2, 2), (3,), ()])
-        inp = {"op": rng.choice(BINARY if binary else UNARY),
-               "a": rand_poly(rng, shape=shape, pool=[-1, 0, 1, 2], dtype=rng.choice(["int64", "float64"])),
-               "view": rng.random() < 0.3}
-        if binary:
-            r = rng.random()
-            inp["b"] = {"poly": rand_poly(rng, shape=rng.choice([shape, ()]), pool=[-1, 1, 2])} if r < 0.7 else \
-                ({"array": nested(rng, shape, [1, 2, 3]), "dtype": "int64"} if r < 0.9 else {"num": 2})
-        yield inp
+    # systematic: every operation x every coefficient dtype (an aliasing slip typically shows for ONE dtype only,
+    # e.g. numpy.asarray(x, dtype=bool) is a view exactly for bool data), a few random operands each
+    reps = count(tier, 4, 12)
+    for op in UNARY + BINARY:
+        for dt in DTYPES:
+            for _ in range(reps):
+                binary = op in BINARY
+                shape = rng.choice([(2,), (2, 2), (3,), ()])
+                inp = {"op": op,
+                       "a": rand_poly(rng, shape=shape, pool=[0, 0, 1, 2] if dt in ("bool", "uint32") else [-1, 0, 1, 2],
+                                      dtype=dt, maxterms=3),
+                       "view": rng.random() < 0.3}
+                if binary:
+                    r = rng.random()
+                    inp["b"] = {"poly": rand_poly(rng, shape=rng.choice([shape, ()]), pool=[-1, 1, 2])} if r < 0.7 else \
+                        ({"array": nested(rng, shape, [1, 2, 3]), "dtype": "int64"} if r < 0.9 else {"num": 2})
+                yield inp
 
 
 def unary(op, a, numpoly):
